@@ -4,6 +4,7 @@ import Driver.OpsGenAttrs
 import XsdataModel.Gen.Derive
 import XsdataModel.Gen.Attrs
 import XsdataModel.Gen.Subst
+import XsdataModel.Gen.Compound
 open Lean Proto Py Xs.Gen
 
 namespace OpsGenDerive
@@ -62,8 +63,14 @@ def run (op : String) (a : Json) : Option (Except String Json) :=
         | _ => .error "bad substitution pair"
       let refs ← (← asArr (fld a "refs")).mapM asStr
       -- CalculateAttributePaths, UpdateAttributesEffectiveChoice, AddAttributeSubstitutions, MergeAttributes
-      let ss := effectiveChoice (calculatePaths (sites (← dParticle (fld a "particle"))))
-      pure <| ok (jList jSite (mergeDuplicates (substituteAll pairs refs ss)))
+      let mem : Str → List Str := fun n => if refs.contains n then membersOf pairs (pairs.length + 1) n else []
+      pure <| ok (jList jSite (occursSubst mem (sites (← dParticle (fld a "particle")))))
+  | "gen.compound" => some do
+      let ss ← sitesArg a
+      pure <| ok (jList (fun (f : CField) => match f with
+        | .plain s => jObj [("plain", jStr s.name)]
+        | .compound c => jObj [("compound", jObj [("names", jList jStr c.names), ("min", jNat c.min),
+            ("max", jNat c.max), ("sequence", jOpt jNat c.sequence)])]) (compoundFields ss))
   | _ => none
 
 end OpsGenDerive
